@@ -27,6 +27,19 @@ ARGS = {
  "C09_m2": ["C09", "--archs", "sse2,avx512f", "--ops", "reduce_min", "--types", "i32,u64"],
  "C09_m3": ["C09", "--archs", "avx512f", "--ops", "haddp"],
  "C15_m1": ["C15"], "C15_m2": ["C15"], "C15_m3": ["C15"],
+ # second round
+ "C04_m1": ["C04", "--archs", "avx512bw,avx512f", "--ops", "bool_load_unaligned,bool_load_aligned"],
+ "C04_m2": ["C04", "--archs", "sse2,avx2", "--ops", "gather", "--types", "u8,u16,i32"],
+ "C08_m1": ["C08", "--archs", "sse2", "--ops", "round"],
+ "C08_m2": ["C08", "--archs", "sse4_1", "--ops", "nearbyint_as_int", "--types", "f64"],
+ "C12_m1": ["C12"], "C12_m2": ["C03", "--archs", "sse2", "--ops", "ge", "--types", "f32,f64"],
+ "C13_m1": ["C13"], "C13_m2": ["C01", "--archs", "avx2", "--ops", "mul", "--types", "i8,u8"],
+ "C14_m1": ["C14"], "C14_m2": ["C14"],
+ "C16_m1": ["C16", "--archs", "avx,avx2"], "C16_m2": ["C16"],
+ "C17_m1": ["C17", "--ops", "avg,avgr", "--types", "u32,u64"], "C17_m2": ["C03", "--archs", "sse2", "--ops", "lt,gt", "--types", "i64"],
+ "C18_m1": ["C18"], "C18_m2": ["C18"],
+ "C19_m1": ["C19"], "C19_m2": ["C05", "--archs", "sse2,avx2", "--ops", "rotate_right_3", "--types", "f32,i32"],
+ "C20_m1": ["C20"], "C20_m2": ["C20"],
 }
 ids = sys.argv[1:] or sorted(d for d in os.listdir(os.path.join(V, "seeded")) if os.path.isdir(os.path.join(V, "seeded", d)))
 for i in ids:
@@ -34,12 +47,18 @@ for i in ids:
     args = ARGS.get(i)
     if not args:
         print(i, "no check arguments registered"); continue
-    subprocess.run(["git", "-C", "/repo", "checkout", "-q", "--", "."])
-    r = subprocess.run(["git", "-C", "/repo", "apply", os.path.join(d, "patch.diff")])
+    # the patch is applied to a scratch worktree of /repo's HEAD (XSIMD_REPO points the checks at it), so that /repo itself is never
+    # modified while other work goes on; evidence of these runs goes to build/seeded_evidence, not to evidence/
+    W = os.environ.get("SEEDED_WORKTREE", "/tmp/sw_seeded")
+    if not os.path.isdir(W):
+        subprocess.run(["git", "-C", "/repo", "worktree", "add", "-q", "--detach", W, "HEAD"], check=True)
+    subprocess.run(["git", "-C", W, "checkout", "-q", "--", "."])
+    r = subprocess.run(["git", "-C", W, "apply", os.path.join(d, "patch.diff")])
     if r.returncode != 0:
         print(i, "patch does not apply"); continue
-    p = subprocess.run([os.path.join(V, "bin", "verif"), "check"] + args, stdout=subprocess.PIPE, stderr=subprocess.STDOUT, universal_newlines=True)
-    subprocess.run(["git", "-C", "/repo", "checkout", "-q", "--", "."])
+    env = dict(os.environ, XSIMD_REPO=W, VERIF_EVIDENCE_DIR=os.path.join(V, "build", "seeded_evidence"), VERIF_BUDGET="1500")
+    p = subprocess.run([os.path.join(V, "bin", "verif"), "check"] + args, stdout=subprocess.PIPE, stderr=subprocess.STDOUT, universal_newlines=True, env=env)
+    subprocess.run(["git", "-C", W, "checkout", "-q", "--", "."])
     viol = [l for l in p.stdout.splitlines() if l.startswith("VIOLATION")]
     summ = [l for l in p.stdout.splitlines() if re.match(r"^\[C\d+\] tier", l)]
     res = {"check": "bin/verif check " + " ".join(args), "exit_code": p.returncode, "violations": viol[:6], "summary": summ[-1] if summ else "",
